@@ -29,8 +29,22 @@ MULTILINE = [
 ]
 
 
+TRUNCATED = ('import "other.pn";\n\nconst N: usize = 3;\n\nstruct P\n{\n\tx: i32,\n\tname: [N]char8,\n}\n\n'
+             'pub fn f(a: i32, p: &P) -> i32\n{\n\tvar s = "héllo\\n";\n\tvar t: [N]i32 = [1, 2, 3];\n\tif a == 0x1F\n\t{\n\t\tgoto end;\n\t}\n'
+             '\telse if p.x > |t|\n\t\tgoto end;\n\tt[0] = -a as i32;\n\tend:\n\treturn: t[0]\n}\n')
+
+
+def truncations(rng, n):
+    """prefixes of one module that uses most constructs, cut at arbitrary characters: the file then ENDS at its last token
+    (no line end, no space after it), which is where an end-of-file diagnostic has nowhere to point but inside the source"""
+    cuts = list(range(1, len(TRUNCATED)))
+    rng.shuffle(cuts)
+    return [('module cut after %d characters (no line end at the end of the file)' % c, TRUNCATED[:c]) for c in sorted(cuts[:n])]
+
+
 def inputs(rng, n_samples):
     out = [('multi-line construct #%d' % i, s) for i, s in enumerate(MULTILINE)]
+    out += truncations(rng, 120 if n_samples <= 60 else len(TRUNCATED))
     from . import witness_types, witness_mut
     by = [(what, src) for src, exp, what in witness_types.cases(rng) if exp != 'accept'] + \
          [(what, src) for src, exp, what in witness_mut.cases() + witness_mut.aggregate_cases() if exp != 'accept']
